@@ -36,7 +36,8 @@ def body_lemma(n, k1, hs1, s1, hl1, l1, d1, k2, hs2, s2, d2, is_date, has_end, e
     shape = ctx.PART
     comps = []
     if n >= 1:
-        comps.append(_calq.component(k1, hs1, s1, hl1, l1, True, d1, is_date, has_end, e1))
+        # (as in C11: a VTODO / VJOURNAL first component goes without DTSTART when has_end is set)
+        comps.append(_calq.component(k1, hs1, s1, hl1, l1, not (has_end and k1 != 0), d1, is_date, has_end, e1))
     if n >= 2:
         comps.append(_calq.component(k2, hs2, s2, False, "", True, d2, False, False, 0))
     same_type = sum(1 for c in comps if c[1]["name"] == _calq.KINDS[kindf])
